@@ -24,7 +24,8 @@ from fractions import Fraction
 import vlib
 
 LEVEL = "proof"
-RULE = ("cases (Y, X, r, c, poison patterns, altered Y2): X families uniform/skewed/rare strata/many values/blocks/"
+RULE = ("scale families (65536..~200000 rows, thorough also ~18 million rows crossing 2^24) given by generator parameters; small "
+        "cases (Y, X, r, c, poison patterns, altered Y2): X families uniform/skewed/rare strata/many values/blocks/"
         "sparse codes, Y families random/self-pair/self-on-sample-only/function of X/noisy/constant/high-cardinality, "
         "r from a grid 0.01..0.99, float32 neighbours of k/n, ratios putting floor(r*n) on, just below and just above a "
         "multiple of #values, r*n < 1; non-trivial = quota >= 1 and at least one row not sampled; "
@@ -265,6 +266,29 @@ def small_scope(rng):
     return out
 
 
+def scale_cases(rng, tier):
+    """inputs given by generator parameters only (arrays are produced by impl_c04_npmodel.gen_scale on the implementation
+    side and judged by the numpy transcription of the model): around the 2^16 and 2^17 row marks and ~200 000 rows in both
+    tiers; in thorough additionally one ~18 million row input whose minority target value only occurs beyond row 2^24"""
+    def one(n, k, layout, r, **kw):
+        p = {"n": n, "k": k, "seed": rng.randrange(1 << 20), "layout": layout, "classes": rng.choice([2, 3, 5]),
+             "r": f32(r), "c": rng.random() < 0.5, "reps": 3}
+        p.update(kw)
+        return {"scale": p, "poison": [3.0, 9.0], "fam": ["scale-" + layout, "scale", "scale-%g" % r]}
+    out = [one(65536, 64, "hash", 0.5),
+           one(65537, rng.choice([2, 3, 7]), "hash", rng.choice([0.05, 0.9])),
+           one(131072, 64, rng.choice(["hash", "skew"]), 0.5),
+           one(rng.randint(180000, 220000), rng.randint(2, 64), rng.choice(["hash", "skew"]), rng.choice([0.05, 0.5, 0.9])),
+           one(rng.choice([65535, 65536, 131071, 131073]), rng.randint(2, 64), "skew", rng.choice([0.05, 0.5, 0.9]))]
+    if tier == "thorough":
+        for _ in range(6):
+            out.append(one(rng.choice([65536, 65537, 100000, 131072, 262144, rng.randint(66000, 400000)]), rng.randint(2, 64),
+                           rng.choice(["hash", "skew"]), rng.choice([0.05, 0.5, 0.9])))
+        n = rng.randint(17200000, 18200000)
+        out.append(one(n, 2, "late_minority", 0.05, start=(1 << 24) + rng.randint(1, 300), reps=2))
+    return out
+
+
 def load_corpus():
     d = os.path.join(vlib.VERIF, "corpus", "C04")
     out = []
@@ -276,6 +300,11 @@ def load_corpus():
 
 
 def well_formed(c):
+    if "scale" in c:
+        p = c["scale"]
+        return (isinstance(p, dict) and isinstance(p.get("n"), int) and 1 <= p["n"] < 2 ** 29 and isinstance(p.get("k"), int)
+                and p["k"] >= 1 and isinstance(p.get("r"), float) and f32(p["r"]) == p["r"] and 0.0 < p["r"] < 1.0
+                and p.get("layout") in ("hash", "skew", "late_minority"))
     return (isinstance(c.get("Y"), list) and isinstance(c.get("X"), list) and len(c["Y"]) == len(c["X"]) >= 1
             and all(isinstance(v, int) and 0 <= v < 2 ** 24 for v in c["Y"] + c["X"])
             and isinstance(c.get("r"), float) and f32(c["r"]) == c["r"] and 0.0 < c["r"] < 1.0
@@ -285,25 +314,46 @@ def well_formed(c):
 # ---------------------------------------------------------------------------------------------------------
 # evaluation of a batch of cases: implementation runs + model in Coq + verdicts
 
-def coq_expr(case, arrays):
+def coq_expr(case, arrays, nparrays):
+    """model terms, C04_check on the implementation's arrays, outside_hyp, quota, #sampled, C04_check on the rows of the
+    numpy transcription (cross-check of impl_c04_npmodel.py against the Coq model)"""
     fr = Fraction(case["r"])
     ys, xs = arrays if arrays is not None else ([], [])
     y2 = case.get("Y2") or case["Y"]
-    return ("let Y := %s in let X := %s in let k := (Y, X, (%d # %d)%%Q, %s) in "
-            "(C04_model k, C04_check k (%s, %s), outside_hyp k %s, Z.of_nat (quota X (%d # %d)%%Q), "
-            "Z.of_nat (length (sampled_indices X (%d # %d)%%Q)))" % (
+    if nparrays is not None and arrays is not None and tuple(nparrays) == tuple(arrays):
+        npchk = "rows_ok"
+    else:
+        nys, nxs = nparrays if nparrays is not None else ([], [])
+        npchk = "C04_check k (%s, %s)" % (vlib.zlist(nys), vlib.zlist(nxs))
+    return ("let Y := %s in let X := %s in let k := (Y, X, (%d # %d)%%Q, %s) in let rows_ok := C04_check k (%s, %s) in "
+            "(C04_model k, rows_ok, outside_hyp k %s, Z.of_nat (quota X (%d # %d)%%Q), "
+            "Z.of_nat (length (sampled_indices X (%d # %d)%%Q)), %s)" % (
                 vlib.zlist(case["Y"]), vlib.zlist(case["X"]), fr.numerator, fr.denominator, vlib.blit(case["c"]),
                 vlib.zlist(ys), vlib.zlist(xs), vlib.zlist(y2), fr.numerator, fr.denominator,
-                fr.numerator, fr.denominator))
+                fr.numerator, fr.denominator, npchk))
 
 
 def num(x):
     return x if isinstance(x, (int, float)) else float(x)      # "nan"/"inf" come back as strings
 
 
+def pick_first(good):
+    return "N" if "N" in good else "N1" if "N1" in good else sorted(good)[-1]
+
+
+def sig(r):
+    """what stratified_subsampling returned: the arrays (small cases) or their summary (scale cases)"""
+    return r["sum"] if "sum" in r else (r["ys"], r["xs"])
+
+
+def show(r):
+    return r["sum"] if "sum" in r else r["xs"][-6:]
+
+
 def judge(case, runs, val):
-    """-> (list of (clause, detail), info)"""
-    status, mterms, rows_ok, hyp, quota, nsampled = val      # Coq prints left-nested pairs flat
+    """-> (list of (clause, detail), info).  val = (error status, Some terms, rows_ok, hyp, quota, #sampled): from Coq for
+    small cases, from the numpy transcription (cross-checked against Coq in the same run) for scale cases"""
+    status, mterms, rows_ok, hyp, quota, nsampled = val[:6]      # Coq prints left-nested pairs flat
     info = {"quota": quota, "sampled": nsampled, "hyp": hyp}
     viol = []
     if status != 0 or mterms is None:
@@ -322,12 +372,12 @@ def judge(case, runs, val):
     good = {m: r for m, r in done.items() if "score" in r}
     if not good:
         return viol, info
-    first = sorted(good)[-1] if "N" not in good else "N"
+    first = pick_first(good)
     for m, r in sorted(good.items()):
-        if (r["ys"], r["xs"]) != (good[first]["ys"], good[first]["xs"]):
+        if sig(r) != sig(good[first]):
             viol.append(("never reads uninitialised memory / same result in every process",
                          "sampled arrays differ between run %s (poison %s) and run %s (poison %s): %s vs %s" % (
-                             m, poison_of(case, m), first, poison_of(case, first), r["xs"][-6:], good[first]["xs"][-6:])))
+                             m, poison_of(case, m), first, poison_of(case, first), show(r), show(good[first]))))
             break
     fin = {m: num(r["score"]) for m, r in good.items() if math.isfinite(num(r["score"]))}
     ms = sorted(fin)
@@ -342,10 +392,15 @@ def judge(case, runs, val):
             continue
         break
     if not rows_ok:
-        q, idx = py_sampled(case["X"], case["r"])
-        viol.append(("uses, for each distinct target value, only the first floor(floor(r*n)/#values) rows carrying that value",
-                     "run %s: stratified_subsampling returned %d rows %s..., C04_check = false; model: quota %d, %d rows, X' = %s..." % (
-                         first, len(good[first]["xs"]), good[first]["xs"][:12], quota, nsampled, [case["X"][i] for i in idx][:12])))
+        if "scale" in case:
+            viol.append(("uses, for each distinct target value, only the first floor(floor(r*n)/#values) rows carrying that value",
+                         "run %s: stratified_subsampling returned %s; model (numpy transcription of sampled_indices, cross-checked "
+                         "against Coq in this run): quota %d, %s" % (first, good[first]["sum"], quota, val[6])))
+        else:
+            q, idx = py_sampled(case["X"], case["r"])
+            viol.append(("uses, for each distinct target value, only the first floor(floor(r*n)/#values) rows carrying that value",
+                         "run %s: stratified_subsampling returned %d rows %s..., C04_check = false; model: quota %d, %d rows, X' = %s..." % (
+                             first, len(good[first]["xs"]), good[first]["xs"][:12], quota, nsampled, [case["X"][i] for i in idx][:12])))
     for m, r in sorted(good.items()):
         s = num(r["score"])
         if not math.isfinite(s):
@@ -369,25 +424,69 @@ def judge(case, runs, val):
 
 def poison_of(case, m):
     pz = case.get("poison") or [3.0, 9.0]
-    return {"A": pz[0], "B": pz[1], "N": None, "F": pz[0]}[m]
+    return {"A": pz[0], "B": pz[1], "N": None, "F": pz[0]}[m[0]]
 
 
 def canonical(case):
+    if "scale" in case:
+        return {"scale": case["scale"]}
     return {"Y": case["Y"], "X": case["X"], "r": case["r"], "c": case["c"]}
 
 
-def evaluate(cases, fresh=(), max_respawn=4):
-    res = vlib.run_impl("impl_c04.py", {"cases": cases, "fresh": list(fresh), "max_respawn": max_respawn})["results"]
+def jsonable(v):
+    return json.loads(json.dumps(v))
+
+
+def evaluate(cases, fresh=(), max_respawn=4, crosscheck=None):
+    """implementation runs (3 workers) and the numpy transcription run side by side; small cases then go through Coq.
+    crosscheck, when given, collects the small cases on which the numpy transcription and the Coq model disagree."""
+    from concurrent.futures import ThreadPoolExecutor
+    with ThreadPoolExecutor(max_workers=2) as ex:
+        f1 = ex.submit(vlib.run_impl, "impl_c04.py", {"cases": cases, "fresh": list(fresh), "max_respawn": max_respawn})
+        f2 = ex.submit(vlib.run_impl, "impl_c04_np.py", {"cases": cases})
+        res = f1.result()["results"]
+        npres = f2.result()["results"]
+    small = [i for i, c in enumerate(cases) if "scale" not in c]
     exprs = []
-    for c, runs in zip(cases, res):
+    for i in small:
+        c, runs, nr = cases[i], res[i], npres[i]
         good = {m: r for m, r in runs.items() if r and "score" in r}
-        first = None if not good else ("N" if "N" in good else sorted(good)[-1])
-        exprs.append(coq_expr(c, None if first is None else (good[first]["ys"], good[first]["xs"])))
-    vals = balanced_eval(exprs, [len(c["X"]) for c in cases])
+        first = None if not good else pick_first(good)
+        exprs.append(coq_expr(c, None if first is None else (good[first]["ys"], good[first]["xs"]), (nr["ys"], nr["xs"])))
+    vals = dict(zip(small, balanced_eval(exprs, [len(cases[i]["X"]) for i in small]))) if small else {}
     out = []
-    for c, runs, v in zip(cases, res, vals):
-        viol, info = judge(c, runs, v)
+    bad = []
+    for i, (c, runs, nr) in enumerate(zip(cases, res, npres)):
+        if "scale" in c:
+            flat = {}
+            for m, r in runs.items():
+                if r and "reps" in r:
+                    for j, rep in enumerate(r["reps"]):
+                        flat["%s%d" % (m, j + 1)] = rep
+                else:
+                    flat[m] = r
+            good = {m: r for m, r in flat.items() if r and "score" in r}
+            first = None if not good else pick_first(good)
+            rows_ok = first is None or good[first]["sum"] == nr["sum"]
+            v = (0, ("Some", nr["terms"]), rows_ok, False, nr["quota"], nr["sampled"], nr["sum"])
+            viol, info = judge(c, flat, v)
+            info["numba_threads"] = sorted({r.get("numba_threads") for r in runs.values() if r and "numba_threads" in r})
+            info["n_values"] = nr.get("n_values")
+            info["model_seconds"] = nr.get("model_seconds")
+            runs = flat
+        else:
+            v = vals[i]
+            same = (v[0] == 0 and v[1] is not None and jsonable(v[1][1]) == nr["terms"] and v[6] is True
+                    and v[4] == nr["quota"] and v[5] == nr["sampled"])
+            if not same:
+                bad.append({"case": canonical(c), "coq": jsonable(v[1]), "coq_rows_check_on_numpy_rows": v[6], "numpy": nr["terms"]})
+            viol, info = judge(c, runs, v)
         out.append({"viol": viol, "info": info, "runs": runs})
+    if crosscheck is not None:
+        crosscheck.extend(bad)
+        crosscheck.append(len(small))
+    elif bad:
+        raise vlib.Broken("numpy-transcription-differs-from-coq-model", json.dumps(bad[0])[:1500])
     return out
 
 
@@ -472,11 +571,18 @@ def check(run, replay):
         nontriv = [i for i, c in enumerate(cases) if 0 < len(py_sampled(c["X"], c["r"])[1]) < len(c["X"])]
         fresh = nontriv[:2] + run.rng.sample(nontriv, min(nf, len(nontriv)))
         fresh = sorted(set(fresh))[:nf + 2]
+        cases.extend(scale_cases(run.rng, run.tier))
     bad = [c for c in cases if not well_formed(c)]
     if bad:
         raise vlib.Broken("harness:ill-formed-case", json.dumps(bad[0])[:500])
 
-    ev = evaluate(cases, fresh)
+    cross = []
+    ev = evaluate(cases, fresh, crosscheck=cross)
+    nsmall = cross.pop() if cross else 0
+    run.oblige("numpy transcription (impl_c04_npmodel.py: sampled rows, quota, term structure) = Coq model on all %d small "
+               "cases of this run" % nsmall, not cross, json.dumps(cross[:2])[:1500])
+    if cross:
+        run.violation("broken-obligation", "numpy-transcription-differs-from-coq-model", found_input=False, extra=cross[:3])
     run.oblige("correspondence:(a) sampled rows = C04_check, (b) score = model term structure, "
                "(c) poisoned/plain/fresh runs agree, (d) outside-irrelevance", True)
     hist = {"n": {}, "x_family": {}, "y_family": {}, "r_family": {}, "quota0": 0, "stratum_smaller_than_quota": 0,
@@ -484,13 +590,24 @@ def check(run, replay):
             "outside_hypothesis_false": 0, "fresh_interpreter_runs": 0, "runs": 0, "skipped_runs": 0}
     failing = []
     for i, (c, e) in enumerate(zip(cases, ev)):
-        n = len(c["X"])
-        b = "1-20" if n <= 20 else "21-300" if n <= 300 else "301-2500" if n <= 2500 else ">2500"
+        n = c["scale"]["n"] if "scale" in c else len(c["X"])
+        b = ("1-20" if n <= 20 else "21-300" if n <= 300 else "301-2500" if n <= 2500 else "2501-65535" if n < 65536
+             else "65536-400000" if n <= 400000 else "> 2^24")
         hist["n"][b] = hist["n"].get(b, 0) + 1
         for key, v in zip(("x_family", "y_family", "r_family"), c.get("fam", ["corpus"] * 3)):
             hist[key][v] = hist[key].get(v, 0) + 1
         q = e["info"]["quota"]
         ns = e["info"]["sampled"]
+        if "scale" in c:
+            hist["scale_cases"] = hist.get("scale_cases", 0) + 1
+            hist["scale_runs"] = hist.get("scale_runs", 0) + sum(1 for r in e["runs"].values() if r and "score" in r)
+            hist.setdefault("scale_sizes", []).append([n, e["info"].get("n_values"), c["scale"]["r"], q, ns])
+            hist.setdefault("numba_threads", set()).update(e["info"].get("numba_threads") or [])
+            hist["correction_on"] += bool(c["scale"]["c"])
+            run.count_case(canonical(c), q > 0 and ns < n)
+            if e["viol"]:
+                failing.append((n, i))
+            continue
         cnts = {}
         for x in c["X"]:
             cnts[x] = cnts.get(x, 0) + 1
@@ -513,7 +630,7 @@ def check(run, replay):
         c, e = cases[i], ev[i]
         rc = {k: v for k, v in c.items() if k != "fam"}
         viol, info, runs = e["viol"], e["info"], e["runs"]
-        if rank == 0 and replay is None and n > 8:
+        if rank == 0 and replay is None and n > 8 and "scale" not in rc:
             sc = shrink(run.rng, rc)
             if sc is not rc:
                 try:
@@ -527,11 +644,13 @@ def check(run, replay):
                       case=rc, impl=brief, model=info, clause="; ".join("%s — %s" % v for v in viol[:6]))
     if failing:
         run.obligations[-1] = (run.obligations[-1][0], False, "%d of %d cases fail" % (len(failing), len(cases)))
-    run.cov["input_distribution"] = {k: (dict(sorted(v.items())) if isinstance(v, dict) else int(v)) for k, v in hist.items()}
+    run.cov["input_distribution"] = {k: (dict(sorted(v.items())) if isinstance(v, dict) else sorted(v) if isinstance(v, (set, list))
+                                         else int(v)) for k, v in hist.items()}
     run.cov["exhaustive"] = False
     if run.tier == "thorough" and replay is None:
         run.cov["exhaustive_small_scope"] = "every X over 3 codes with length <= 5, ratios 0.3/0.5/0.7/0.9, one random (Y, c) each"
-    run.samples = [{k: v for k, v in c.items()} for c in cases if len(c["X"]) <= 16][:4]
+    run.samples = [{k: v for k, v in c.items()} for c in cases if "scale" in c or len(c["X"]) <= 16][:4] + \
+                  [c for c in cases if "scale" in c][:2]
     run.assumptions += [
         "codes are >= 0 and both vectors have the same length >= 1 (precondition of the numba code, as in C01)",
         "0 < r < 1 and n < 2^29: int(float32 * int64) and int(a / b) then equal the model's exact floors — proved with Flocq "
@@ -544,4 +663,7 @@ def check(run, replay):
         "harness: tools/props/c04.py (generator, eval_float = float64 mirror of the term structure's meaning, tolerances)",
         "tools/impl/impl_c04.py + impl_c04_worker.py (drive the real code in child processes, ctypes heap poisoning)",
         "coqparse.py (reads the terms coqc prints)",
+        "scale families (n >= 65536, up to ~18 million rows in thorough): judged by tools/impl/impl_c04_npmodel.py, a numpy "
+        "transcription of sampled_indices / terms_spec that is held against the Coq model on every small case of the same run; "
+        "the generator of those inputs (gen_scale) is shared by the implementation workers and the transcription",
     ]
